@@ -13,9 +13,9 @@ import (
 )
 
 type snap struct {
-	blocks [][]uint64          // current block order -> original addresses in current order
-	addrs  map[uint64]uint64   // original address -> current address
-	bounds map[uint64][2]int   // original address -> (lower, upper)
+	blocks [][]uint64        // current block order -> original addresses in current order
+	addrs  map[uint64]uint64 // original address -> current address
+	bounds map[uint64][2]int // original address -> (lower, upper)
 	begins []uint64
 }
 
@@ -328,8 +328,8 @@ func run(c *mon.Case) {
 
 func main() {
 	mon.Main(mon.Spec{
-		Prop: "C07",
-		Rule: "case = generated code of 1..8 blocks x 1..12 synthetic instructions (lengths 1..8) and a history of 200 operations (70% instruction moves incl. moves aimed at the reported bounds and +-1, 15% block moves, 15% lookups; ~25% invalid indices incl. negative and =len); non-trivial = history with >=20 accepted and >=20 rejected instruction moves and >=1 block move; distinct by history+code",
+		Prop:        "C07",
+		Rule:        "case = generated code of 1..8 blocks x 1..12 synthetic instructions (lengths 1..8) and a history of 200 operations (70% instruction moves incl. moves aimed at the reported bounds and +-1, 15% block moves, 15% lookups; ~25% invalid indices incl. negative and =len); non-trivial = history with >=20 accepted and >=20 rejected instruction moves and >=1 block move; distinct by history+code",
 		Explanation: "oracle: shadow permutation and an invariant walk after every operation: acceptance iff indices valid and target within [LowerBound,UpperBound] as reported before the call; rejected move leaves a full snapshot unchanged; accepted move is the rotation by one; every instruction within its bounds; addresses tile the block from its start in current order; Block.Address/Code.Address find every instruction/block at its current address and nothing at non-start or uncovered addresses; dependency edges (hook VerifDeps) are static, symmetric and respected by the current order; block moves only permute Blocks()/Idx()",
 		Assumptions: []string{"dependency edges read through the verif hook deps.VerifDeps"},
 		Cases: func(t string) int {
